@@ -79,11 +79,37 @@ ASSUME Phase = "emit" => ndJsonSerialize(IOEnv.VERIF_OUT, AllValues)
 \* ---- phase "check": what the Rust side made of each value ----
 Back == TLCEval(IF Phase = "check" THEN ndJsonDeserialize(IOEnv.VERIF_BACK) ELSE <<>>)
 
+\* serde's text, read back by TLC, must SHOW the abstract value: every field of the abstract
+\* value is present with an equal value; sequences have the same length.  Additional fields in
+\* serde's text are not a violation of C16 (the property fixes no output layout beyond the round
+\* trip), so a maintainer may add one.
+Has(r, f) == f \in DOMAIN r
+SpanShows(j, a) == Has(j, "start") /\ Has(j, "end") /\ j.start = a.start /\ j.end = a.end
+PosShows(j, a) == Has(j, "line") /\ Has(j, "column") /\ j.line = a.line /\ j.column = a.column
+PatShows(j, a) ==
+  /\ Has(j, "pattern") /\ Has(j, "token_type") /\ j.pattern = a.pattern /\ j.token_type = a.token_type
+  /\ Has(a, "lookahead") = Has(j, "lookahead")          \* an absent lookahead stays absent
+  /\ Has(a, "lookahead") => /\ Has(j.lookahead, "is_positive") /\ Has(j.lookahead, "pattern")
+                            /\ j.lookahead.is_positive = a.lookahead.is_positive
+                            /\ j.lookahead.pattern = a.lookahead.pattern
+ModeShows(j, a) ==
+  /\ Has(j, "name") /\ Has(j, "patterns") /\ Has(j, "transitions")
+  /\ j.name = a.name /\ j.transitions = a.transitions
+  /\ Len(j.patterns) = Len(a.patterns) /\ \A k \in DOMAIN a.patterns : PatShows(j.patterns[k], a.patterns[k])
+Covers(kind, j, a) ==
+  CASE kind = "modes"    -> Len(j) = Len(a) /\ \A k \in DOMAIN a : ModeShows(j[k], a[k])
+    [] kind = "span"     -> SpanShows(j, a)
+    [] kind = "position" -> PosShows(j, a)
+    [] kind = "match"    -> Has(j, "token_type") /\ Has(j, "span") /\ j.token_type = a.token_type /\ SpanShows(j.span, a.span)
+    [] kind = "matchext" -> /\ Has(j, "token_type") /\ Has(j, "span") /\ Has(j, "start_position") /\ Has(j, "end_position")
+                            /\ j.token_type = a.token_type /\ SpanShows(j.span, a.span)
+                            /\ PosShows(j.start_position, a.start_position) /\ PosShows(j.end_position, a.end_position)
+
 LineOK(b) ==
   IF b.kind = "readme" THEN b.deserialized /\ b.builds
   ELSE /\ b.deserialized                                  \* TLC's text in the README layout is accepted
        /\ b.equals_api_value                              \* ... and means the value built through the Rust API
-       /\ b.value = AllValues[b.id].value                 \* serde's text, read back by TLC, is the abstract value
+       /\ Covers(b.kind, b.value, AllValues[b.id].value)          \* serde's text, read back by TLC, shows the abstract value
        /\ b.roundtrip_equal                               \* from_str(to_string(x)) = x on the Rust side
        /\ (b.kind = "modes" => b.same_behaviour)          \* both configurations build scanners that scan alike
 
